@@ -44,8 +44,13 @@ Outcome(s, f, k) ==
 \*   insert_misc: the parent; cpukind: with infos or not; cpukind_info: which kind and which edit;
 \*   restrict: -1 when refused, else the number of subtrees below the root that keep a PU (1 = the levels below the root may merge),
 \*             + 10 when by nodeset, + 100 * what it does to the distances structure added last (DistCut)
+\*             + 1000 when it leaves a NUMA node without any PU or a PU without any local node (what later calls must cope with)
 \*   dist_add: 1 when the kind and flag words are legal (a structure is really added)
+\*   group_ns: 1 when the nodeset names a NUMA node that has no PU left
+\* a class of 100000 or more marks a mirrored call
+Starved(PP, NN) == (\E n \in NN : NodeCpus[n] \cap PP = {}) \/ (\E c \in PP : {n \in NN : c \in NodeCpus[n]} = {})
 Class(op) == CASE op[1] = "insert_misc" -> op[3]
+               [] op[1] = "group_ns" -> IF \E n \in nodes[op[2]] : InR(SetChoices[op[3]], n) /\ NodeCpus[n] \cap pus[op[2]] = {} THEN 1 ELSE 0
                [] op[1] = "dist_add" -> IF op[3] \in {5, 6, 9, 10} /\ op[4] \in {0, 1, 2, 3} THEN 1 ELSE 0
                [] op[1] = "cpukind" -> op[5]
                [] op[1] = "memattr" -> IF op[3] = 5 THEN 1 ELSE 0         \* an attribute with initiators (several per target)
@@ -71,7 +76,8 @@ Restrict == \E s \in Slots, f \in (IF Tiny THEN {0} ELSE RestrictFlags), k \in (
               /\ live[s]
               /\ LET o == Outcome(s, f, k) IN
                    /\ pus' = [pus EXCEPT ![s] = o[2]] /\ nodes' = [nodes EXCEPT ![s] = o[3]]
-                   /\ StepC(<<"restrict", s, f, k, o[1]>>, IF o[1] = -1 THEN -1 ELSE Survivors(o[2]) + (IF Bit(f, R_BYNODESET) THEN 10 ELSE 0) + 100 * DistCut(s, o[2]))
+                   /\ StepC(<<"restrict", s, f, k, o[1]>>, IF o[1] = -1 THEN -1 ELSE Survivors(o[2]) + (IF Bit(f, R_BYNODESET) THEN 10 ELSE 0) + 100 * DistCut(s, o[2])
+                                                                                 + (IF Starved(o[2], o[3]) /\ ~Starved(pus[s], nodes[s]) THEN 1000 ELSE 0))
               /\ UNCHANGED live
 
 \* calls that do not change the resources
@@ -115,13 +121,13 @@ Destroy == \E s \in Slots : /\ TwoSlots /\ live[0] /\ live[1]      \* either cop
 \* and end up the same (TraceTopo!Twin).  It is not counted as a step and is never mirrored again.
 Mirror == /\ TwoSlots /\ live[0] /\ live[1] /\ hist # <<>>
           /\ LET op == hist[Len(hist)]  s2 == 1 - op[2]  c == sig[Len(sig)][3] IN
-               /\ op[1] \notin {"dup", "destroy"} /\ c < 1000
+               /\ op[1] \notin {"dup", "destroy"} /\ c < 100000
                /\ IF op[1] = "restrict"
                   THEN LET o == Outcome(s2, op[3], op[4]) IN
                          /\ pus' = [pus EXCEPT ![s2] = o[2]] /\ nodes' = [nodes EXCEPT ![s2] = o[3]]
                          /\ hist' = Append(hist, <<"restrict", s2, op[3], op[4], o[1]>>)
                   ELSE /\ hist' = Append(hist, [op EXCEPT ![2] = s2]) /\ UNCHANGED <<pus, nodes>>
-               /\ sig' = Append(sig, <<op[1], s2, 1000 + (IF c < 0 THEN 999 ELSE c)>>)
+               /\ sig' = Append(sig, <<op[1], s2, 100000 + (IF c < 0 THEN 99999 ELSE c)>>)
           /\ UNCHANGED <<live, steps>>
 
 Next == Restrict \/ Other \/ Dup \/ Destroy \/ Mirror
